@@ -246,6 +246,7 @@ def run(tier, seed):
     rng = derive(seed, "c19", "host")
     # violations inside a pristine single-request session (registry model, H2) are
     # reported like any other
+    cpu = {}
     all_jobs, all_results = list(ref_jobs), list(ref_res)
     families = ["reference"] * len(ref_jobs)
 
@@ -254,6 +255,7 @@ def run(tier, seed):
         all_jobs.extend(jobs)
         all_results.extend(res)
         families.extend([family] * len(jobs))
+        cpu[family] = cpu.get(family, 0) + sum((r or {}).get("wall_s", 0) or 0 for r in res)
         return res
 
     # ---- family E: empty history, environment varied (strict literal equality)
@@ -452,6 +454,7 @@ def run(tier, seed):
     n_live = driver.triage_timeouts(all_jobs, all_results)
     if n_live:
         log(f"[{PROP}] {n_live} runs do not terminate (liveness)")
+    log("[C19] cpu seconds per family: " + ", ".join(f"{k}={v:.0f}" for k, v in cpu.items()))
     harness = driver.harness_failures(all_results)
     if harness:
         # a run that hangs after an injected fault would be a liveness violation (H5);
